@@ -7,7 +7,8 @@
 (*      (TLC-generated mutants of the dumped parrot specs: one extension   *)
 (*      dropped, two neighbours swapped, an extension kind no parrot uses  *)
 (*      added, a field replaced by a variant), captures with a crafted     *)
-(*      non-empty padding extension.  Every grid point is an initial       *)
+(*      non-empty padding extension, captures whose GREASE ECH extension   *)
+(*      has an encapsulated key / payload of another size.  Every grid point is an initial       *)
 (*      state and is emitted as a scenario; the custom specs are emitted   *)
 (*      once each as descriptor lists the harness turns into real          *)
 (*      ClientHelloSpecs.                                                  *)
@@ -33,6 +34,11 @@ SniClasses == {"same", "shorter", "longer"}
 RandomizedIDs == {"Randomized-0", "Randomized-ALPN-0", "Randomized-NoALPN-0"}   \* ClientHelloID.Str() of HelloRandomized, HelloRandomizedALPN, HelloRandomizedNoALPN
 PadLens == {1, 2, 5, 33, 200}
 PadWhere == {"end", "middle"}
+\* crafted captures of a GREASE ECH extension: enc (encapsulated key) sizes of other KEMs than X25519 (32): DHKEM P-256 65,
+\* P-384 97, P-521 133, and odd ones; payload sizes from (128+16) and not from the parrots' candidate sets
+EchEncLens == {1, 31, 33, 65, 97, 133}
+EchPayLens == {144, 16, 100, 250}
+EchIDs == {id \in IDs : HasExt(Specs[id], "GREASEEncryptedClientHelloExtension")}
 
 \* ---- custom specs: mutants of dumped specs
 D(kind, f) == [kind |-> kind, f |-> f]
@@ -99,6 +105,7 @@ Sources ==
   \cup {[kind |-> "randomized", id |-> id, k |-> k, m |-> [op |-> "", i |-> 0, k |-> 0], where |-> ""] : id \in RandomizedIDs, k \in 1..NSeeds}
   \cup UNION {{[kind |-> "custom", id |-> id, k |-> 0, m |-> m, where |-> ""] : m \in Muts(id)} : id \in CustomBases}
   \cup {[kind |-> "capture", id |-> id, k |-> p, m |-> [op |-> "", i |-> 0, k |-> 0], where |-> w] : id \in IDs, p \in PadLens, w \in PadWhere}
+  \cup {[kind |-> "echcapture", id |-> id, k |-> n, m |-> [op |-> "ech", i |-> pl, k |-> 0], where |-> ""] : id \in EchIDs, n \in EchEncLens, pl \in EchPayLens}
 
 GridInit == /\ mode = "grid"
             /\ scn \in [src : Sources, flags : Flags, sni : SniClasses]
